@@ -559,6 +559,11 @@ class Impl:
             return [0, ATOMS.rules(e.get_permissions_for_user(ATOMS.s(op[1])))]
         if c == 70:
             return [0, ATOMS.rules(e.get_permissions_for_user_in_domain(ATOMS.s(op[1]), ATOMS.s(op[2])))]
+        if c == 71:
+            # batch_enforce(list of requests) -> one decision per position.  Not part of the Mgmt model: histories
+            # containing it are run with compare_model=False (see batch_block for the observational spec)
+            v = e.batch_enforce([S(r) for r in op[1]])
+            return [0, [(1 if x else 0) if isinstance(x, bool) else ["BAD", repr(x)] for x in v]]
         raise ValueError(f"unknown op {op}")
 
     def step(self, op):
@@ -681,6 +686,46 @@ def probe_ops(kind, uni, roles=True):
     return ops
 
 
+def batch_block(rng, requests, n=None):
+    """a batch_enforce call (op 71) over `requests` drawn WITH repetition (so the same request occurs at several
+    positions), preceded by one enforce (op 50) of every distinct request of the batch: batch_enforce must answer,
+    position by position, what enforce answered for that request (see batch_spec)"""
+    n = n if n is not None else rng.randint(2, 7)
+    pool = [list(r) for r in rng.sample(requests, min(len(requests), rng.randint(1, 4)))]
+    batch = [list(rng.choice(pool)) for _ in range(n)]
+    distinct = []
+    for r in batch:
+        if r not in distinct:
+            distinct.append(r)
+    return [(50, r) for r in distinct] + [(71, batch)]
+
+
+def batch_spec(ops, obs):
+    """observational spec of batch_enforce: the answer at every position equals the answer of the latest enforce of the
+    same request, provided no call other than a query lies in between -> list of (step, message)"""
+    last = {}
+    for i, (op, o) in enumerate(zip(ops, obs)):
+        c = op[0]
+        if c < 50:
+            last = {}
+        elif c == 50:
+            last[tuple(op[1])] = o[0]
+        elif c == 71:
+            res = o[0]
+            known = [last.get(tuple(r)) for r in op[1]]
+            if any(k is None for k in known):
+                continue
+            if any(k[0] != 0 for k in known):
+                if res[0] == 0:
+                    return [(i, "batch_enforce answered although enforce raises for one of its requests")]
+                continue
+            if res[0] != 0 or len(res[1]) != len(op[1]):
+                return [(i, "batch_enforce does not answer once per position")]
+            if res[1] != [k[1] for k in known]:
+                return [(i, "batch_enforce differs at some position from enforce of the same request")]
+    return []
+
+
 def g_arity(kind, pt):
     return 3 if (kind.dom and pt == 1) else 2
 
@@ -760,7 +805,7 @@ def pretty_op(op):
              62: "get_implicit_users_for_permission", 63: "get_implicit_users_for_resource",
              64: "get_implicit_users_for_resource_by_domain", 65: "get_all_subjects", 66: "get_all_objects",
              67: "get_all_actions", 68: "get_all_roles", 69: "get_permissions_for_user",
-             70: "get_permissions_for_user_in_domain"}
+             70: "get_permissions_for_user_in_domain", 71: "batch_enforce"}
 
     def p(x):
         if isinstance(x, list):
